@@ -135,6 +135,12 @@ def replay_state(st):
             back = dreye.cartesian_to_barycentric(yp.copy(), L1=L1, centered=centred)
             if np.max(np.abs(back - P)) > 1e-9 * np.max(P) or np.max(np.abs(back.sum(1) - L1)) > 1e-9 * np.max(L1):
                 bad.append(("C16.bary-inverse", dict(centred=centred, **where0), None, None, None))
+            # the caller keeps its points: the same array object converted twice gives the same weights
+            held = yp.copy()
+            first = dreye.cartesian_to_barycentric(held, L1=L1, centered=centred)
+            again = dreye.cartesian_to_barycentric(held, L1=L1, centered=centred)
+            if not np.array_equal(held, yp) or np.max(np.abs(np.asarray(again) - np.asarray(first))) > 1e-12 * np.max(P):
+                bad.append(("C16.bary-inverse", dict(centred=centred, what="same array converted twice", **where0), None, None, None))
             back1 = dreye.cartesian_to_barycentric(yp.copy(), centered=centred)
             if np.max(np.abs(back1.sum(1) - 1)) > 1e-9 or np.max(np.abs(back1 - Pn)) > 1e-9:
                 bad.append(("C16.bary-inverse", dict(centred=centred, what="L1=None", **where0), None, None, None))
